@@ -1297,6 +1297,14 @@ fn shrink(script: &[String], kind: &str, sig: &str, property: Option<&str>) -> V
     cur
 }
 
+/// one operation on a store that is held elsewhere
+pub fn exec_on(store: &mut AnnotationStore, line: &str) -> String {
+    let mut ex = Exec { store: std::mem::replace(store, new_store()) };
+    let r = ex.exec(line);
+    *store = ex.store;
+    r
+}
+
 pub fn exec_script(lines: &[String]) -> Vec<String> {
     let mut ex = Exec::new();
     lines.iter().map(|l| ex.exec(l)).collect()
